@@ -197,6 +197,10 @@ pub fn process_text_attr(element: &SvgElement) -> Result<(SvgElement, Vec<SvgEle
     // Whether text is pre-formatted (i.e. spaces are not collapsed)
     let text_pre = orig_elem.has_class("d-text-pre");
 
+    // line spacing (in 'em').
+    let line_spacing = strp(&orig_elem.pop_attr("text-lsp").unwrap_or("1.05".to_owned()))?;
+    let text_style = orig_elem.pop_attr("text-style");
+
     // There will always be a text element; if not multiline this is the only element.
     let mut text_elem = if orig_elem.name == "text" {
         orig_elem.clone()
@@ -205,14 +209,11 @@ pub fn process_text_attr(element: &SvgElement) -> Result<(SvgElement, Vec<SvgEle
     };
     text_elem.set_attr("x", &x_str);
     text_elem.set_attr("y", &y_str);
-    // line spacing (in 'em').
-    let line_spacing = strp(&orig_elem.pop_attr("text-lsp").unwrap_or("1.05".to_owned()))?;
     // Extract style and class(es) from original element. Note we use
     // `text-style` for styling text rather than copying `style` to both outer
     // element and generated text, as is likely there will be conflicts with
     // the original element's desired style (e.g. setting `style="fill:red"`
     // on a rect with `text` present would cause red-on-red invisible text).
-    let text_style = orig_elem.pop_attr("text-style");
     if let Some(ref style) = text_style {
         text_elem.set_attr("style", style);
     }
